@@ -39,6 +39,19 @@ func New(origin string, key *ref.Key, trees []*ref.Tree) *Log {
 	return &Log{Origin: origin, Key: key, trees: trees}
 }
 
+// SetHostile installs or removes the hostile answerer (safe while requests are being served).
+func (l *Log) SetHostile(h func(w http.ResponseWriter, r *http.Request) bool) {
+	l.mu.Lock()
+	l.Hostile = h
+	l.mu.Unlock()
+}
+
+func (l *Log) hostile() func(w http.ResponseWriter, r *http.Request) bool {
+	l.mu.Lock()
+	defer l.mu.Unlock()
+	return l.Hostile
+}
+
 // Publish moves the served checkpoint.
 func (l *Log) Publish(branch int, size uint64) {
 	l.mu.Lock()
@@ -125,7 +138,7 @@ func (l *Log) SumDBHandler() http.Handler {
 	srv := sumdb.NewServer(sumdbOps{l})
 	return http.HandlerFunc(func(w http.ResponseWriter, r *http.Request) {
 		l.record(r)
-		if l.Hostile != nil && l.Hostile(w, r) {
+		if h := l.hostile(); h != nil && h(w, r) {
 			return
 		}
 		srv.ServeHTTP(w, r)
@@ -177,7 +190,7 @@ func parseTilePath(p string) (level int, index uint64, width int, err error) {
 func (l *Log) TilesHandler() http.Handler {
 	return http.HandlerFunc(func(w http.ResponseWriter, r *http.Request) {
 		l.record(r)
-		if l.Hostile != nil && l.Hostile(w, r) {
+		if h := l.hostile(); h != nil && h(w, r) {
 			return
 		}
 		p := strings.TrimPrefix(r.URL.Path, "/")
@@ -217,7 +230,7 @@ func (l *Log) TilesHandler() http.Handler {
 func (l *Log) PixelHandler() http.Handler {
 	return http.HandlerFunc(func(w http.ResponseWriter, r *http.Request) {
 		l.record(r)
-		if l.Hostile != nil && l.Hostile(w, r) {
+		if h := l.hostile(); h != nil && h(w, r) {
 			return
 		}
 		p := strings.TrimPrefix(r.URL.Path, "/")
@@ -257,7 +270,7 @@ func (l *Log) PixelHandler() http.Handler {
 func (l *Log) RekorHandler(treeID string) http.Handler {
 	return http.HandlerFunc(func(w http.ResponseWriter, r *http.Request) {
 		l.record(r)
-		if l.Hostile != nil && l.Hostile(w, r) {
+		if h := l.hostile(); h != nil && h(w, r) {
 			return
 		}
 		switch {
